@@ -91,7 +91,7 @@ class PropertyRun:
                 t = t.replace(old, new, 1)
             if v.get('append'):
                 t = t.replace('} // verus!', v['append'] + '\n} // verus!')
-            vp = os.path.join(self.work, f'{name}.{v["name"]}.rs')
+            vp = os.path.join(self.work, f'{name}__{v["name"]}.rs')
             open(vp, 'w').write(t)
             jobs.append((v['name'], vp, v))
         with cf.ThreadPoolExecutor(max_workers=4) as ex:
